@@ -101,7 +101,7 @@ fn check_radix_cut<const RADIX: u8, const PREFIX: usize>() {
     core::mem::forget(st);
 }
 
-// @harness id=c20_radix_hex_cut props=C20,C18,C01:thorough tier=thorough cap=5400 mem=40
+// @harness id=c20_radix_hex_cut props=C20,C18,C01:thorough tier=attempt cap=5400 mem=40
 // @desc parse_num_radix::<16> (std.parseHex) on 31 hex digits followed by one arbitrary character: no panic although for a multi-byte character the 32-digit (128-bit) cut at byte 32 falls inside it; Ok iff it is a hex digit, otherwise exactly that character is reported
 // @bound 31 fixed digits + one arbitrary Unicode scalar value; unwind 36
 // @funcs parse_num_radix::<16>
@@ -111,7 +111,7 @@ fn c20_radix_hex_cut() {
     check_radix_cut::<16, 31>();
 }
 
-// @harness id=c20_radix_oct_cut props=C20,C18,C01:thorough tier=thorough cap=5400 mem=40
+// @harness id=c20_radix_oct_cut props=C20,C18,C01:thorough tier=attempt cap=5400 mem=40
 // @desc parse_num_radix::<8> (std.parseOctal) on 41 octal digits followed by one arbitrary character: no panic around the 42-digit cut at byte 42; Ok iff it is an octal digit
 // @bound 41 fixed digits + one arbitrary Unicode scalar value; unwind 46
 // @funcs parse_num_radix::<8>
